@@ -9,8 +9,7 @@
 // Shape of every harness:
 //   * a concrete request (header + question) is read with the real Reader,
 //     the question is echoed with the real Writer into a response buffer of
-//     at most 64 octets (arrays up to 64 elements keep their constants in
-//     CBMC; the two long-chain harnesses use 160);
+//     64 octets;
 //   * the zone is a SCRIPTED mock (stub M1): the k-th call of `lookup`
 //     returns the k-th scripted outcome, the k-th call of `lookup_addrs` the
 //     k-th scripted address answer.  The outcome KINDS are stack constants (so CBMC's
@@ -1407,7 +1406,7 @@ fn negative(out: Out) {
 //   sym="soa_ttl:u32, minimum:u32, 4 SOA octets, synth:bool"
 proof!(c05_neg_nxdomain, 7, negative(Out::NxDomain));
 
-// @harness name=c05_neg_norecords props=C05 panics=C05,C01 tier=quick mem=4 t=900 kani="--no-assertion-reach-checks" cbmc="--max-field-sensitivity-array-size 256 --unwindset _RNCNvMs_NtNtCskjFBwtpsoHr_8quandary7message6writerNtB6_6Writer30write_compressed_unhinted_name0Ba_.0:4,_RNCNvMs_NtNtCskjFBwtpsoHr_8quandary7message6writerNtB6_6Writer30write_compressed_unhinted_names_0Ba_.0:4,_RNvMs_NtNtCskjFBwtpsoHr_8quandary7message6writerNtB4_6Writer30write_compressed_unhinted_name.0:4,_RNvMs_NtNtCskjFBwtpsoHr_8quandary7message6writerNtB4_6Writer30write_compressed_unhinted_name.1:4,_RINvNvMNtNtCs8xvirJzNMvV_4core5slice5asciiSh27eq_ignore_ascii_case_chunks21eq_ignore_ascii_innerKj10_ECskjFBwtpsoHr_8quandary.0:3,_RNvMNtNtCs8xvirJzNMvV_4core5slice5asciiSh27eq_ignore_ascii_case_simpleCskjFBwtpsoHr_8quandary.0:3,_RINvMNtNtCs8xvirJzNMvV_4core5slice5asciiSh27eq_ignore_ascii_case_chunksKj10_ECskjFBwtpsoHr_8quandary.0:3,_RNvNtNtCskjFBwtpsoHr_8quandary4name4wire23parse_uncompressed_name.0:5,_RNvMs_NtCskjFBwtpsoHr_8quandary4nameNtB4_4Name15initialize_into.0:5,_RINvNtCs8xvirJzNMvV_4core3ptr9drop_glueSTjINtNtCs6xMQmN1AWUs_5alloc5boxed3BoxNtNtCskjFBwtpsoHr_8quandary4name4NameEEEB1h_.0:3,_RINvNtNtCskjFBwtpsoHr_8quandary6server5query11do_referralNtNtB2_10kani_query8MockZoneEB6_.0:2,_RINvNtNtCskjFBwtpsoHr_8quandary6server5query11do_referralNtNtB2_10kani_query8MockZoneEB6_.1:2,_RINvNtNtCskjFBwtpsoHr_8quandary6server5query11do_referralNtNtB2_10kani_query8MockZoneEB6_.2:2" stubs="M1,T0"
+// @harness name=c05_neg_norecords props=C05 panics=C05,C01 tier=thorough mem=4 t=900 kani="--no-assertion-reach-checks" cbmc="--max-field-sensitivity-array-size 256 --unwindset _RNCNvMs_NtNtCskjFBwtpsoHr_8quandary7message6writerNtB6_6Writer30write_compressed_unhinted_name0Ba_.0:4,_RNCNvMs_NtNtCskjFBwtpsoHr_8quandary7message6writerNtB6_6Writer30write_compressed_unhinted_names_0Ba_.0:4,_RNvMs_NtNtCskjFBwtpsoHr_8quandary7message6writerNtB4_6Writer30write_compressed_unhinted_name.0:4,_RNvMs_NtNtCskjFBwtpsoHr_8quandary7message6writerNtB4_6Writer30write_compressed_unhinted_name.1:4,_RINvNvMNtNtCs8xvirJzNMvV_4core5slice5asciiSh27eq_ignore_ascii_case_chunks21eq_ignore_ascii_innerKj10_ECskjFBwtpsoHr_8quandary.0:3,_RNvMNtNtCs8xvirJzNMvV_4core5slice5asciiSh27eq_ignore_ascii_case_simpleCskjFBwtpsoHr_8quandary.0:3,_RINvMNtNtCs8xvirJzNMvV_4core5slice5asciiSh27eq_ignore_ascii_case_chunksKj10_ECskjFBwtpsoHr_8quandary.0:3,_RNvNtNtCskjFBwtpsoHr_8quandary4name4wire23parse_uncompressed_name.0:5,_RNvMs_NtCskjFBwtpsoHr_8quandary4nameNtB4_4Name15initialize_into.0:5,_RINvNtCs8xvirJzNMvV_4core3ptr9drop_glueSTjINtNtCs6xMQmN1AWUs_5alloc5boxed3BoxNtNtCskjFBwtpsoHr_8quandary4name4NameEEEB1h_.0:3,_RINvNtNtCskjFBwtpsoHr_8quandary6server5query11do_referralNtNtB2_10kani_query8MockZoneEB6_.0:2,_RINvNtNtCskjFBwtpsoHr_8quandary6server5query11do_referralNtNtB2_10kani_query8MockZoneEB6_.1:2,_RINvNtNtCskjFBwtpsoHr_8quandary6server5query11do_referralNtNtB2_10kani_query8MockZoneEB6_.2:2" stubs="M1,T0"
 //   fn="Server::handle_non_axfr_query,answer,add_negative_caching_soa,read_soa_minimum,Writer::add_authority_rr,Writer::finish"
 //   bound="as c05_neg_nxdomain with lookup(a.) = NoRecords (possibly wildcard-synthesized); unwind 7"
 //   sym="soa_ttl:u32, minimum:u32, 4 SOA octets, synth:bool"
@@ -1564,7 +1563,7 @@ fn found_target(rtype: u16, udp: bool, limit: usize, has_a: bool, has_aaaa: bool
     (check_response(&resp, n, &ex, udp, limit), n)
 }
 
-// @harness name=c05_found_mx props=C05,C04 panics=C05,C01 quick=C05 mem=4.5 t=3600 kani="--no-assertion-reach-checks" cbmc="--max-field-sensitivity-array-size 256 --unwindset _RNCNvMs_NtNtCskjFBwtpsoHr_8quandary7message6writerNtB6_6Writer30write_compressed_unhinted_name0Ba_.0:4,_RNCNvMs_NtNtCskjFBwtpsoHr_8quandary7message6writerNtB6_6Writer30write_compressed_unhinted_names_0Ba_.0:4,_RNvMs_NtNtCskjFBwtpsoHr_8quandary7message6writerNtB4_6Writer30write_compressed_unhinted_name.0:4,_RNvMs_NtNtCskjFBwtpsoHr_8quandary7message6writerNtB4_6Writer30write_compressed_unhinted_name.1:4,_RINvNvMNtNtCs8xvirJzNMvV_4core5slice5asciiSh27eq_ignore_ascii_case_chunks21eq_ignore_ascii_innerKj10_ECskjFBwtpsoHr_8quandary.0:3,_RNvMNtNtCs8xvirJzNMvV_4core5slice5asciiSh27eq_ignore_ascii_case_simpleCskjFBwtpsoHr_8quandary.0:3,_RINvMNtNtCs8xvirJzNMvV_4core5slice5asciiSh27eq_ignore_ascii_case_chunksKj10_ECskjFBwtpsoHr_8quandary.0:3,_RNvNtNtCskjFBwtpsoHr_8quandary4name4wire23parse_uncompressed_name.0:5,_RNvMs_NtCskjFBwtpsoHr_8quandary4nameNtB4_4Name15initialize_into.0:5,_RINvNtCs8xvirJzNMvV_4core3ptr9drop_glueSTjINtNtCs6xMQmN1AWUs_5alloc5boxed3BoxNtNtCskjFBwtpsoHr_8quandary4name4NameEEEB1h_.0:3,_RINvNtNtCskjFBwtpsoHr_8quandary6server5query11do_referralNtNtB2_10kani_query8MockZoneEB6_.0:2,_RINvNtNtCskjFBwtpsoHr_8quandary6server5query11do_referralNtNtB2_10kani_query8MockZoneEB6_.1:2,_RINvNtNtCskjFBwtpsoHr_8quandary6server5query11do_referralNtNtB2_10kani_query8MockZoneEB6_.2:2" stubs="M1,T0"
+// @harness name=c05_found_mx props=C05,C04 panics=C05,C01 tier=quick mem=4.5 t=3600 kani="--no-assertion-reach-checks" cbmc="--max-field-sensitivity-array-size 256 --unwindset _RNCNvMs_NtNtCskjFBwtpsoHr_8quandary7message6writerNtB6_6Writer30write_compressed_unhinted_name0Ba_.0:4,_RNCNvMs_NtNtCskjFBwtpsoHr_8quandary7message6writerNtB6_6Writer30write_compressed_unhinted_names_0Ba_.0:4,_RNvMs_NtNtCskjFBwtpsoHr_8quandary7message6writerNtB4_6Writer30write_compressed_unhinted_name.0:4,_RNvMs_NtNtCskjFBwtpsoHr_8quandary7message6writerNtB4_6Writer30write_compressed_unhinted_name.1:4,_RINvNvMNtNtCs8xvirJzNMvV_4core5slice5asciiSh27eq_ignore_ascii_case_chunks21eq_ignore_ascii_innerKj10_ECskjFBwtpsoHr_8quandary.0:3,_RNvMNtNtCs8xvirJzNMvV_4core5slice5asciiSh27eq_ignore_ascii_case_simpleCskjFBwtpsoHr_8quandary.0:3,_RINvMNtNtCs8xvirJzNMvV_4core5slice5asciiSh27eq_ignore_ascii_case_chunksKj10_ECskjFBwtpsoHr_8quandary.0:3,_RNvNtNtCskjFBwtpsoHr_8quandary4name4wire23parse_uncompressed_name.0:5,_RNvMs_NtCskjFBwtpsoHr_8quandary4nameNtB4_4Name15initialize_into.0:5,_RINvNtCs8xvirJzNMvV_4core3ptr9drop_glueSTjINtNtCs6xMQmN1AWUs_5alloc5boxed3BoxNtNtCskjFBwtpsoHr_8quandary4name4NameEEEB1h_.0:3,_RINvNtNtCskjFBwtpsoHr_8quandary6server5query11do_referralNtNtB2_10kani_query8MockZoneEB6_.0:2,_RINvNtNtCskjFBwtpsoHr_8quandary6server5query11do_referralNtNtB2_10kani_query8MockZoneEB6_.1:2,_RINvNtNtCskjFBwtpsoHr_8quandary6server5query11do_referralNtNtB2_10kani_query8MockZoneEB6_.2:2" stubs="M1,T0"
 //   fn="Server::handle_non_axfr_query,answer,do_additional_section_processing,add_additional_addresses,execute_allowing_truncation,read_name_from_rdata,Writer::add_answer_rrset,Writer::add_additional_rrset"
 //   bound="UDP, limit 64; question a. MX IN; lookup(a.) = Found(MX .. b.); lookup_addrs(b.) = Found with an A: 52 octets, complete; unwind 7"
 //   sym="TTL of the RRset, fixed RDATA octets, TTLs and octets of the address records"
@@ -1774,33 +1773,6 @@ proof!(c05_cname_loop2b, 7, {
     kani::cover!(true, "loop at the second link answered");
 });
 
-// @harness name=c05_cname_chain8 props=C05 panics=C05,C01 tier=thorough mem=10 t=3600 kani="--no-assertion-reach-checks" cbmc="--max-field-sensitivity-array-size 256 --unwindset _RNCNvMs_NtNtCskjFBwtpsoHr_8quandary7message6writerNtB6_6Writer30write_compressed_unhinted_name0Ba_.0:4,_RNCNvMs_NtNtCskjFBwtpsoHr_8quandary7message6writerNtB6_6Writer30write_compressed_unhinted_names_0Ba_.0:4,_RNvMs_NtNtCskjFBwtpsoHr_8quandary7message6writerNtB4_6Writer30write_compressed_unhinted_name.0:4,_RNvMs_NtNtCskjFBwtpsoHr_8quandary7message6writerNtB4_6Writer30write_compressed_unhinted_name.1:4,_RINvNvMNtNtCs8xvirJzNMvV_4core5slice5asciiSh27eq_ignore_ascii_case_chunks21eq_ignore_ascii_innerKj10_ECskjFBwtpsoHr_8quandary.0:3,_RNvMNtNtCs8xvirJzNMvV_4core5slice5asciiSh27eq_ignore_ascii_case_simpleCskjFBwtpsoHr_8quandary.0:3,_RINvMNtNtCs8xvirJzNMvV_4core5slice5asciiSh27eq_ignore_ascii_case_chunksKj10_ECskjFBwtpsoHr_8quandary.0:3,_RNvNtNtCskjFBwtpsoHr_8quandary4name4wire23parse_uncompressed_name.0:5,_RNvMs_NtCskjFBwtpsoHr_8quandary4nameNtB4_4Name15initialize_into.0:5,_RINvNtCs8xvirJzNMvV_4core3ptr9drop_glueSTjINtNtCs6xMQmN1AWUs_5alloc5boxed3BoxNtNtCskjFBwtpsoHr_8quandary4name4NameEEEB1h_.0:3,_RINvNtNtCskjFBwtpsoHr_8quandary6server5query11do_referralNtNtB2_10kani_query8MockZoneEB6_.0:2,_RINvNtNtCskjFBwtpsoHr_8quandary6server5query11do_referralNtNtB2_10kani_query8MockZoneEB6_.1:2,_RINvNtNtCskjFBwtpsoHr_8quandary6server5query11do_referralNtNtB2_10kani_query8MockZoneEB6_.2:2" stubs="M1,T0"
-//   fn="Server::handle_non_axfr_query,answer,do_cname,follow_cname_1,follow_cname_2"
-//   bound="UDP, response buffer and limit 160; question a. A IN; a. -> b. -> ... -> i. (8 CNAMEs, the maximum), i. not in the zone: all 8 CNAMEs, NOERROR, AA; unwind 12"
-//   sym="8 TTLs"
-proof!(c05_cname_chain8, 12, {
-    let t = [P_B, P_C, P_D, P_E, P_F, P_G, P_H, P_I];
-    let r = [
-        name1_raw(b'b'), name1_raw(b'c'), name1_raw(b'd'), name1_raw(b'e'), name1_raw(b'f'), name1_raw(b'g'), name1_raw(b'h'), name1_raw(b'i'),
-    ];
-    chain::<160>(false, &t, &r, 8, Final::OutOfZone, true, 160);
-    kani::cover!(true, "eight links followed");
-});
-
-// @harness name=c05_cname_chain9 props=C05 panics=C05,C01 tier=thorough mem=10 t=3600 kani="--no-assertion-reach-checks" cbmc="--max-field-sensitivity-array-size 256 --unwindset _RNCNvMs_NtNtCskjFBwtpsoHr_8quandary7message6writerNtB6_6Writer30write_compressed_unhinted_name0Ba_.0:4,_RNCNvMs_NtNtCskjFBwtpsoHr_8quandary7message6writerNtB6_6Writer30write_compressed_unhinted_names_0Ba_.0:4,_RNvMs_NtNtCskjFBwtpsoHr_8quandary7message6writerNtB4_6Writer30write_compressed_unhinted_name.0:4,_RNvMs_NtNtCskjFBwtpsoHr_8quandary7message6writerNtB4_6Writer30write_compressed_unhinted_name.1:4,_RINvNvMNtNtCs8xvirJzNMvV_4core5slice5asciiSh27eq_ignore_ascii_case_chunks21eq_ignore_ascii_innerKj10_ECskjFBwtpsoHr_8quandary.0:3,_RNvMNtNtCs8xvirJzNMvV_4core5slice5asciiSh27eq_ignore_ascii_case_simpleCskjFBwtpsoHr_8quandary.0:3,_RINvMNtNtCs8xvirJzNMvV_4core5slice5asciiSh27eq_ignore_ascii_case_chunksKj10_ECskjFBwtpsoHr_8quandary.0:3,_RNvNtNtCskjFBwtpsoHr_8quandary4name4wire23parse_uncompressed_name.0:5,_RNvMs_NtCskjFBwtpsoHr_8quandary4nameNtB4_4Name15initialize_into.0:5,_RINvNtCs8xvirJzNMvV_4core3ptr9drop_glueSTjINtNtCs6xMQmN1AWUs_5alloc5boxed3BoxNtNtCskjFBwtpsoHr_8quandary4name4NameEEEB1h_.0:3,_RINvNtNtCskjFBwtpsoHr_8quandary6server5query11do_referralNtNtB2_10kani_query8MockZoneEB6_.0:2,_RINvNtNtCskjFBwtpsoHr_8quandary6server5query11do_referralNtNtB2_10kani_query8MockZoneEB6_.1:2,_RINvNtNtCskjFBwtpsoHr_8quandary6server5query11do_referralNtNtB2_10kani_query8MockZoneEB6_.2:2" stubs="M1,T0"
-//   fn="Server::handle_non_axfr_query,answer,do_cname,follow_cname_1,follow_cname_2"
-//   bound="UDP, response buffer and limit 160; question a. A IN; a. -> b. -> ... -> j. (9 CNAMEs): SERVFAIL, no records, AA clear; unwind 12"
-//   sym="9 TTLs"
-proof!(c05_cname_chain9, 12, {
-    let t = [P_B, P_C, P_D, P_E, P_F, P_G, P_H, P_I, P_J];
-    let r = [
-        name1_raw(b'b'), name1_raw(b'c'), name1_raw(b'd'), name1_raw(b'e'), name1_raw(b'f'), name1_raw(b'g'), name1_raw(b'h'), name1_raw(b'i'),
-        name1_raw(b'j'),
-    ];
-    chain::<160>(false, &t, &r, 9, Final::OutOfZone, true, 160);
-    kani::cover!(true, "over-long chain answered");
-});
-
 // @harness name=c05_cname_badrdata props=C05 panics=C05,C01 tier=thorough mem=4 t=1200 kani="--no-assertion-reach-checks" cbmc="--max-field-sensitivity-array-size 256 --unwindset _RNCNvMs_NtNtCskjFBwtpsoHr_8quandary7message6writerNtB6_6Writer30write_compressed_unhinted_name0Ba_.0:4,_RNCNvMs_NtNtCskjFBwtpsoHr_8quandary7message6writerNtB6_6Writer30write_compressed_unhinted_names_0Ba_.0:4,_RNvMs_NtNtCskjFBwtpsoHr_8quandary7message6writerNtB4_6Writer30write_compressed_unhinted_name.0:4,_RNvMs_NtNtCskjFBwtpsoHr_8quandary7message6writerNtB4_6Writer30write_compressed_unhinted_name.1:4,_RINvNvMNtNtCs8xvirJzNMvV_4core5slice5asciiSh27eq_ignore_ascii_case_chunks21eq_ignore_ascii_innerKj10_ECskjFBwtpsoHr_8quandary.0:3,_RNvMNtNtCs8xvirJzNMvV_4core5slice5asciiSh27eq_ignore_ascii_case_simpleCskjFBwtpsoHr_8quandary.0:3,_RINvMNtNtCs8xvirJzNMvV_4core5slice5asciiSh27eq_ignore_ascii_case_chunksKj10_ECskjFBwtpsoHr_8quandary.0:3,_RNvNtNtCskjFBwtpsoHr_8quandary4name4wire23parse_uncompressed_name.0:5,_RNvMs_NtCskjFBwtpsoHr_8quandary4nameNtB4_4Name15initialize_into.0:5,_RINvNtCs8xvirJzNMvV_4core3ptr9drop_glueSTjINtNtCs6xMQmN1AWUs_5alloc5boxed3BoxNtNtCskjFBwtpsoHr_8quandary4name4NameEEEB1h_.0:3,_RINvNtNtCskjFBwtpsoHr_8quandary6server5query11do_referralNtNtB2_10kani_query8MockZoneEB6_.0:2,_RINvNtNtCskjFBwtpsoHr_8quandary6server5query11do_referralNtNtB2_10kani_query8MockZoneEB6_.1:2,_RINvNtNtCskjFBwtpsoHr_8quandary6server5query11do_referralNtNtB2_10kani_query8MockZoneEB6_.2:2" stubs="M1,T0"
 //   fn="Server::handle_non_axfr_query,answer,do_cname,follow_cname_1,Name::try_from_uncompressed_all"
 //   bound="UDP, limit 64; question a. A IN; lookup(a.) = Cname whose RDATA is not one whole name (label cut short; name followed by an extra octet); unwind 7"
@@ -1836,6 +1808,13 @@ proof!(c05_cname_badrdata, 7, {
 /// server is b.a. (glue, below the cut, mandatory), else c. (a name of the
 /// parent zone: useful but optional).
 fn referral(in_bailiwick: bool, any_q: bool, udp: bool, limit: usize, has_a: bool, has_aaaa: bool) -> (u8, usize) {
+    referral_x(in_bailiwick, false, any_q, udp, limit, has_a, has_aaaa)
+}
+
+/// `sibling`: the out-of-bailiwick name server c. lies below ANOTHER zone cut
+/// of the same parent (sibling glue): the zone only shows its addresses to a
+/// lookup with `search_below_cuts`.
+fn referral_x(in_bailiwick: bool, sibling: bool, any_q: bool, udp: bool, limit: usize, has_a: bool, has_aaaa: bool) -> (u8, usize) {
     let ttl: u32 = kani::any();
     let d = addr_with(has_a, has_aaaa);
     let ns_in = name_ba_raw();
@@ -1850,7 +1829,7 @@ fn referral(in_bailiwick: bool, any_q: bool, udp: bool, limit: usize, has_a: boo
     zone.all_out = Out::Referral;
     zone.all_name = P_A;
     let target = if in_bailiwick { P_BA } else { P_C };
-    zone.asteps[0] = astep_of(target, in_bailiwick, &d, rdataset_view(&a4), rdataset_view(&a6));
+    zone.asteps[0] = astep_of(target, in_bailiwick || sibling, &d, rdataset_view(&a4), rdataset_view(&a6));
     zone.n_asteps = 1;
     let req = req_a(if any_q { 255 } else { T_A });
     let mut resp = [0u8; 64];
@@ -1913,6 +1892,15 @@ proof_ref!(c05_referral_out, 7, {
     let (case, n) = referral(false, false, true, 64, true, false);
     kani::cover!(case == COMPLETE && n == 50, "referral with the A of an out-of-bailiwick server");
     let _ = n;
+});
+
+// @harness name=c05_referral_sibling props=C05,C04 panics=C05,C01 tier=quick mem=4 t=1800 kani="--no-assertion-reach-checks" cbmc="--max-field-sensitivity-array-size 256 --unwindset _RNCNvMs_NtNtCskjFBwtpsoHr_8quandary7message6writerNtB6_6Writer30write_compressed_unhinted_name0Ba_.0:4,_RNCNvMs_NtNtCskjFBwtpsoHr_8quandary7message6writerNtB6_6Writer30write_compressed_unhinted_names_0Ba_.0:4,_RNvMs_NtNtCskjFBwtpsoHr_8quandary7message6writerNtB4_6Writer30write_compressed_unhinted_name.0:4,_RNvMs_NtNtCskjFBwtpsoHr_8quandary7message6writerNtB4_6Writer30write_compressed_unhinted_name.1:4,_RINvNvMNtNtCs8xvirJzNMvV_4core5slice5asciiSh27eq_ignore_ascii_case_chunks21eq_ignore_ascii_innerKj10_ECskjFBwtpsoHr_8quandary.0:3,_RNvMNtNtCs8xvirJzNMvV_4core5slice5asciiSh27eq_ignore_ascii_case_simpleCskjFBwtpsoHr_8quandary.0:3,_RINvMNtNtCs8xvirJzNMvV_4core5slice5asciiSh27eq_ignore_ascii_case_chunksKj10_ECskjFBwtpsoHr_8quandary.0:3,_RNvNtNtCskjFBwtpsoHr_8quandary4name4wire23parse_uncompressed_name.0:5,_RNvMs_NtCskjFBwtpsoHr_8quandary4nameNtB4_4Name15initialize_into.0:5,_RINvNtCs8xvirJzNMvV_4core3ptr9drop_glueSTjINtNtCs6xMQmN1AWUs_5alloc5boxed3BoxNtNtCskjFBwtpsoHr_8quandary4name4NameEEEB1h_.0:3,_RINvNtNtCskjFBwtpsoHr_8quandary6server5query11do_referralNtNtB2_10kani_query8MockZoneEB6_.0:2,_RINvNtNtCskjFBwtpsoHr_8quandary6server5query11do_referralNtNtB2_10kani_query8MockZoneEB6_.1:2,_RINvNtNtCskjFBwtpsoHr_8quandary6server5query11do_referralNtNtB2_10kani_query8MockZoneEB6_.2:2" stubs="M1,T0,N1"
+//   fn="Server::handle_non_axfr_query,answer,do_referral,add_additional_addresses,execute_allowing_truncation,read_name_from_rdata,Name::eq_or_subdomain_of,Writer::add_authority_rrset,Writer::add_additional_rrset"
+//   bound="UDP, limit 64; question a. A IN; Referral(cut a., NS c.) where c. lies below ANOTHER cut of the parent zone (sibling glue): the zone answers its address lookup with a Referral unless search_below_cuts is set; c. has an A: 50 octets, complete (the address fits, so it must be there); unwind 7"
+//   sym="NS TTL, TTL and octets of the A record"
+proof_ref!(c05_referral_sibling, 7, {
+    let (case, n) = referral_x(false, true, false, true, 64, true, false);
+    kani::cover!(case == COMPLETE && n == 50, "referral with sibling glue");
 });
 
 // @harness name=c05_referral_out_both props=C05,C04 panics=C05,C01 tier=thorough mem=4.5 t=3600 kani="--no-assertion-reach-checks" cbmc="--max-field-sensitivity-array-size 256 --unwindset _RNCNvMs_NtNtCskjFBwtpsoHr_8quandary7message6writerNtB6_6Writer30write_compressed_unhinted_name0Ba_.0:4,_RNCNvMs_NtNtCskjFBwtpsoHr_8quandary7message6writerNtB6_6Writer30write_compressed_unhinted_names_0Ba_.0:4,_RNvMs_NtNtCskjFBwtpsoHr_8quandary7message6writerNtB4_6Writer30write_compressed_unhinted_name.0:4,_RNvMs_NtNtCskjFBwtpsoHr_8quandary7message6writerNtB4_6Writer30write_compressed_unhinted_name.1:4,_RINvNvMNtNtCs8xvirJzNMvV_4core5slice5asciiSh27eq_ignore_ascii_case_chunks21eq_ignore_ascii_innerKj10_ECskjFBwtpsoHr_8quandary.0:3,_RNvMNtNtCs8xvirJzNMvV_4core5slice5asciiSh27eq_ignore_ascii_case_simpleCskjFBwtpsoHr_8quandary.0:3,_RINvMNtNtCs8xvirJzNMvV_4core5slice5asciiSh27eq_ignore_ascii_case_chunksKj10_ECskjFBwtpsoHr_8quandary.0:3,_RNvNtNtCskjFBwtpsoHr_8quandary4name4wire23parse_uncompressed_name.0:5,_RNvMs_NtCskjFBwtpsoHr_8quandary4nameNtB4_4Name15initialize_into.0:5,_RINvNtCs8xvirJzNMvV_4core3ptr9drop_glueSTjINtNtCs6xMQmN1AWUs_5alloc5boxed3BoxNtNtCskjFBwtpsoHr_8quandary4name4NameEEEB1h_.0:3,_RINvNtNtCskjFBwtpsoHr_8quandary6server5query11do_referralNtNtB2_10kani_query8MockZoneEB6_.0:2,_RINvNtNtCskjFBwtpsoHr_8quandary6server5query11do_referralNtNtB2_10kani_query8MockZoneEB6_.1:2,_RINvNtNtCskjFBwtpsoHr_8quandary6server5query11do_referralNtNtB2_10kani_query8MockZoneEB6_.2:2" stubs="M1,T0,N1"
@@ -2102,7 +2090,7 @@ proof!(c05_any_1, 7, {
     kani::cover!(true, "ANY with one RRset");
 });
 
-// @harness name=c05_any_2 props=C05 panics=C05,C01 tier=quick mem=4 t=1200 kani="--no-assertion-reach-checks" cbmc="--max-field-sensitivity-array-size 256 --unwindset _RNCNvMs_NtNtCskjFBwtpsoHr_8quandary7message6writerNtB6_6Writer30write_compressed_unhinted_name0Ba_.0:4,_RNCNvMs_NtNtCskjFBwtpsoHr_8quandary7message6writerNtB6_6Writer30write_compressed_unhinted_names_0Ba_.0:4,_RNvMs_NtNtCskjFBwtpsoHr_8quandary7message6writerNtB4_6Writer30write_compressed_unhinted_name.0:4,_RNvMs_NtNtCskjFBwtpsoHr_8quandary7message6writerNtB4_6Writer30write_compressed_unhinted_name.1:4,_RINvNvMNtNtCs8xvirJzNMvV_4core5slice5asciiSh27eq_ignore_ascii_case_chunks21eq_ignore_ascii_innerKj10_ECskjFBwtpsoHr_8quandary.0:3,_RNvMNtNtCs8xvirJzNMvV_4core5slice5asciiSh27eq_ignore_ascii_case_simpleCskjFBwtpsoHr_8quandary.0:3,_RINvMNtNtCs8xvirJzNMvV_4core5slice5asciiSh27eq_ignore_ascii_case_chunksKj10_ECskjFBwtpsoHr_8quandary.0:3,_RNvNtNtCskjFBwtpsoHr_8quandary4name4wire23parse_uncompressed_name.0:5,_RNvMs_NtCskjFBwtpsoHr_8quandary4nameNtB4_4Name15initialize_into.0:5,_RINvNtCs8xvirJzNMvV_4core3ptr9drop_glueSTjINtNtCs6xMQmN1AWUs_5alloc5boxed3BoxNtNtCskjFBwtpsoHr_8quandary4name4NameEEEB1h_.0:3,_RINvNtNtCskjFBwtpsoHr_8quandary6server5query11do_referralNtNtB2_10kani_query8MockZoneEB6_.0:2,_RINvNtNtCskjFBwtpsoHr_8quandary6server5query11do_referralNtNtB2_10kani_query8MockZoneEB6_.1:2,_RINvNtNtCskjFBwtpsoHr_8quandary6server5query11do_referralNtNtB2_10kani_query8MockZoneEB6_.2:2" stubs="M1,T0"
+// @harness name=c05_any_2 props=C05 panics=C05,C01 tier=thorough mem=4 t=1200 kani="--no-assertion-reach-checks" cbmc="--max-field-sensitivity-array-size 256 --unwindset _RNCNvMs_NtNtCskjFBwtpsoHr_8quandary7message6writerNtB6_6Writer30write_compressed_unhinted_name0Ba_.0:4,_RNCNvMs_NtNtCskjFBwtpsoHr_8quandary7message6writerNtB6_6Writer30write_compressed_unhinted_names_0Ba_.0:4,_RNvMs_NtNtCskjFBwtpsoHr_8quandary7message6writerNtB4_6Writer30write_compressed_unhinted_name.0:4,_RNvMs_NtNtCskjFBwtpsoHr_8quandary7message6writerNtB4_6Writer30write_compressed_unhinted_name.1:4,_RINvNvMNtNtCs8xvirJzNMvV_4core5slice5asciiSh27eq_ignore_ascii_case_chunks21eq_ignore_ascii_innerKj10_ECskjFBwtpsoHr_8quandary.0:3,_RNvMNtNtCs8xvirJzNMvV_4core5slice5asciiSh27eq_ignore_ascii_case_simpleCskjFBwtpsoHr_8quandary.0:3,_RINvMNtNtCs8xvirJzNMvV_4core5slice5asciiSh27eq_ignore_ascii_case_chunksKj10_ECskjFBwtpsoHr_8quandary.0:3,_RNvNtNtCskjFBwtpsoHr_8quandary4name4wire23parse_uncompressed_name.0:5,_RNvMs_NtCskjFBwtpsoHr_8quandary4nameNtB4_4Name15initialize_into.0:5,_RINvNtCs8xvirJzNMvV_4core3ptr9drop_glueSTjINtNtCs6xMQmN1AWUs_5alloc5boxed3BoxNtNtCskjFBwtpsoHr_8quandary4name4NameEEEB1h_.0:3,_RINvNtNtCskjFBwtpsoHr_8quandary6server5query11do_referralNtNtB2_10kani_query8MockZoneEB6_.0:2,_RINvNtNtCskjFBwtpsoHr_8quandary6server5query11do_referralNtNtB2_10kani_query8MockZoneEB6_.1:2,_RINvNtNtCskjFBwtpsoHr_8quandary6server5query11do_referralNtNtB2_10kani_query8MockZoneEB6_.2:2" stubs="M1,T0"
 //   fn="Server::handle_non_axfr_query,answer_any,Writer::add_answer_rrset"
 //   bound="UDP, limit 64; question a. * IN; the node has two RRsets (A, TXT of one 3-octet string); unwind 7" sym="2 TTLs, 7 octets"
 proof!(c05_any_2, 7, {
